@@ -38,18 +38,22 @@ C("utils.py::read_xml_encoding", params={"body": "bytes"},
         "facts: group 1 is mandatory and ASCII-only)")
 
 TEXT = "ascii_ignore(body)"
+M1 = "re_nomatch('RE_META', 'search', %s)" % TEXT
+M2 = "re_nomatch('RE_META_CONTENT_FIRST', 'search', %s)" % TEXT
 C("utils.py::detect_encoding", params={"body": "bytes", "default_encoding": "str"},
   ensures=[
-      # the WHOLE document is searched for the meta element
-      "re_nomatch('RE_META', 'search', %s) or (result[0] == re_group('RE_META', 'search', %s, 1) "
-      "and result[1] == re_group('RE_META', 'search', %s, 2))" % (TEXT, TEXT, TEXT),
-      "not re_nomatch('RE_META', 'search', %s) or (result[0] is None and result[1] == default_encoding)" % TEXT,
+      # the WHOLE document is searched for the meta element, in either attribute order
+      "%s or (result[0] == re_group('RE_META', 'search', %s, 1) "
+      "and result[1] == re_group('RE_META', 'search', %s, 2))" % (M1, TEXT, TEXT),
+      "not %s or %s or (result[0] == re_group('RE_META_CONTENT_FIRST', 'search', %s, 1) "
+      "and result[1] == re_group('RE_META_CONTENT_FIRST', 'search', %s, 2))" % (M1, M2, TEXT, TEXT),
+      "not (%s and %s) or (result[0] is None and result[1] == default_encoding)" % (M1, M2),
   ],
   result="tuple[opt[str],str]", serves=["C17"],
   ghost={'search': {'generator': ('bounded.bytes_harness', 'gen_meta_docs')},
          'harness': ('bounded.bytes_harness', 'detect_encoding')},
-  notes="bytes input (the read_bytes call path); RE_META's match is an uninterpreted function of the "
-        "searched text")
+  notes="bytes input (the read_bytes call path); each pattern's match is an uninterpreted function of "
+        "the searched text; that the two patterns cover both attribute orders is unit re_meta.order")
 
 C("utils.py::read_bytes", params={"body": "bytes", "default_encoding": "str"},
   inline=["encode_string"],
